@@ -39,21 +39,43 @@ pub fn serialise_text(recs: &[Rec], c: &Container) -> Vec<u8> {
                     }
                 }
             }
-            Format::Fastq { qual_seed } => {
+            Format::Fastq { qual_seed, wrap } => {
                 out.push(b'@');
                 out.extend_from_slice(header_line(r).as_bytes());
                 out.extend_from_slice(nl);
-                out.extend_from_slice(&r.seq.0);
-                out.extend_from_slice(nl);
-                out.push(b'+');
-                out.extend_from_slice(nl);
+                let mut qual = Vec::with_capacity(r.seq.0.len());
                 let mut s = *qual_seed ^ (r.seq.0.len() as u64);
                 for _ in 0..r.seq.0.len() {
                     s = crate::util::splitmix(s);
                     // printable qualities '!'..='~' (may include '@' and '+', also as first character)
-                    out.push(b'!' + ((s >> 20) % 94) as u8);
+                    qual.push(b'!' + ((s >> 20) % 94) as u8);
                 }
-                out.extend_from_slice(nl);
+                match wrap {
+                    None => {
+                        out.extend_from_slice(&r.seq.0);
+                        out.extend_from_slice(nl);
+                        out.push(b'+');
+                        out.extend_from_slice(nl);
+                        out.extend_from_slice(&qual);
+                        out.extend_from_slice(nl);
+                    }
+                    Some(wd) => {
+                        let wd = (*wd).max(1);
+                        for chunk in r.seq.0.chunks(wd) {
+                            out.extend_from_slice(chunk);
+                            out.extend_from_slice(nl);
+                        }
+                        out.push(b'+');
+                        out.extend_from_slice(nl);
+                        for chunk in qual.chunks_mut(wd) {
+                            if chunk[0] == b'@' || chunk[0] == b'+' {
+                                chunk[0] = b'I';
+                            }
+                            out.extend_from_slice(chunk);
+                            out.extend_from_slice(nl);
+                        }
+                    }
+                }
             }
         }
     }
